@@ -2,7 +2,7 @@
 """Regenerates /verif/MANIFEST.json from the table below (kept valid at all times)."""
 import json, subprocess
 
-HOOK_COMMITS = ["91c6866c"]
+HOOK_COMMITS = ["91c6866c", "d908861a"]
 
 CHECKS = {
  "C01": dict(level="exploration", tech="runtime monitoring: convergence oracle (byte-identical Marshal after observed quiescence, no sync/edit error) over generated multi-replica histories on the real server",
@@ -23,6 +23,15 @@ CHECKS = {
  "C06": dict(level="exploration", tech="online assertions at change creation (vector/lamport vs everything applied before) + offline checker over the server log + client-boundary shadow of the version-vector table for the minVV rule",
    text="Histories with edit-during-sync, snapshots, detach/re-attach, wire-level disable_gc attachers; monitors assert vv(c)>=max vv applied before, lamport strictly newer, vv[actor]==lamport, uniqueness and per-actor monotonicity in the log, stored clocks == sent clocks, and minVV[a] <= row_k[a] for every attached participating client on every response.",
    note="pointwise clause not applied to disable_gc attachments (one-entry vector by design); F-SNAPVV-EMPTY recorded with pinned witness."),
+ "C07": dict(level="exploration", tech="reference-model monitor: every public editing call on one Document is mirrored on plain Go models (slice/map/[]uint16/DOM) and compared after each call on clone and root; random programs with scar steps + small-scope exhaustive enumeration",
+   text="Random programs (nested containers, scar steps: concurrent peer edits through the protobuf codec, GC, snapshot round trip) and ALL programs of length <=3 over a reduced alphabet for text/array/tree; after every call structure-equality with the model incl. Len/Get, styled runs, splay weights, index<->position<->path round trips.",
+   note="in-process, no server; same-parent tree ranges; code-point boundaries; F-ARRSET-MOVED fenced; dedup counters not modelled."),
+ "C08": dict(level="exploration", tech="state-snapshot assertions around injected failing updates (error / panic / schema / size limit at every prefix of a callback) + twin document that never saw the failure + clone==root assertion after every step",
+   text="Histories of updates, remote packs, GC, snapshots, undo/redo on one Document; every prefix of chosen callbacks is re-run failing in four ways and Marshal, Root(), pending pack, undo depth, CanUndo/CanRedo, GarbageLen, AllPresences must equal their pre-call values; the next successful update must equal the twin's; Root()==Marshal() after every step.",
+   note="single-goroutine use; twin divergence is only attributed to a failure injected in the same step."),
+ "C11": dict(level="exploration", tech="reference state machine vs the real RPC server over exhaustively enumerated call sequences (small scope) + sampled longer ones; side-effect observation of logs, client records and version-vector rows around every call",
+   text="All sequences up to length 4 (quick) / 5 (thorough) over {Activate, Deactivate, Attach, failing Attach, PushPull, Detach, Remove} x 2 clients x 2 documents modulo renaming, all continuations of the both-attached prefix, and sampled sequences of length 6-8; accept/reject must equal the model, rejected calls leave no trace, accepted calls store exactly their changes (none after removal), rows/status follow the lifecycle.",
+   note="memdb; version-vector rows read through verif-tagged accessor; Activate always creates a new client identity (as the server does); failing Attach modelled only from the never-attached state."),
 }
 
 NOT_YET = {
